@@ -25,6 +25,7 @@ void h_publish_lookup(void)
   __g_clock_steady = t_get;
   opt_KademliaTable__KeyShardRecord r = KademliaTable__shard_record(in_tab, &in_id);
   __CPROVER_assert(r.has == (t_get < deadline), "C03: the shares are served at every instant before the deadline and at none at or after it");
+  if (r.has) { CANARY_AT("a lookup before the deadline"); }
   if (r.has) __CPROVER_assert(r.v.shards.p == in_sh && r.v.shards.n == in_len && r.v.threshold == in_t && r.v.total_shares == in_n, "C11: the lookup returns exactly the published share set");
   CANARY_POINT();
 }
